@@ -23,7 +23,7 @@ pub struct CheckDef {
 }
 
 pub fn all() -> Vec<CheckDef> {
-    vec![c01::def(), c02::def(), c03::def(), c04::def(), c05::def(), c06::def(), c07::def(), c08::def(), c09::def(), c10::def(), c11::def(), c12::def(), c15::def(), c16::def()]
+    vec![c01::def(), c02::def(), c03::def(), c04::def(), c05::def(), c06::def(), c07::def(), c08::def(), c09::def(), c10::def(), c11::def(), c12::def(), c13::def(), c15::def(), c16::def()]
 }
 
 pub fn find(id: &str) -> Option<CheckDef> {
@@ -41,6 +41,7 @@ pub fn replay_other(kind: &str, fr: &crate::runner::FailRec, dir: &std::path::Pa
         "c10" => c10::replay(fr, dir),
         "c11" => c11::replay(fr, dir),
         "c12" => c12::replay(fr, dir),
+        "c13" => c13::replay(fr, dir),
         "c15" => c15::replay(fr, dir),
         "c16" => c16::replay(fr, dir),
         _ => Some(crate::interp::Failure::new("harness_panic", format!("unknown case kind {}", kind))),
